@@ -96,13 +96,20 @@ pub mod __m2s_cfg {
     /// One batch per entry of `sizes` (a single event of that many bytes), all within one period, size limit `max_file_size_bytes`.
     /// Per batch: "PANIC", or "<on_batch returned Ok> <number of files of the set>".
     pub fn run_sized(max_file_size_bytes: usize, sizes: &[usize]) -> Vec<String> {
+        run_sized_step(max_file_size_bytes, sizes, 1)
+    }
+
+    /// The same with the clock moved by `step_secs` (may be negative) before every batch after the first; the first reading is the
+    /// 20th second of a minute, so +-1 stays in the period and +-60 lands in the next / previous one.
+    pub fn run_sized_step(max_file_size_bytes: usize, sizes: &[usize], step_secs: i64) -> Vec<String> {
         let fs = MemFs::default();
         let secs = Arc::new(Mutex::new(1_700_000_000u64));
         let mut w = Worker::new(Arc::new(InternalMetrics::default()), fs.clone(), StepClock(secs.clone()), CountRng(Mutex::new(0)),
             "logs".to_owned(), "app".to_owned(), "log".to_owned(), RollBy::Minute, false, 1000, max_file_size_bytes, b"\n");
         let mut out = Vec::new();
         for (i, n) in sizes.iter().enumerate() {
-            *secs.lock().unwrap() += 1;          // rolling ids are millis within the period: keep file names distinct, period unchanged
+            // (rolling ids are millis within the period: a step keeps file names distinct)
+            if i > 0 { let mut t = secs.lock().unwrap(); *t = (*t as i64 + step_secs) as u64; } else { *secs.lock().unwrap() += 1; }
             let mut b = EventBatch::new();
             b.push(vec![b'a' + (i as u8 % 26); *n].into_boxed_slice());
             let r = std::panic::catch_unwind(std::panic::AssertUnwindSafe(|| w.on_batch(b).is_ok()));
@@ -476,26 +483,39 @@ def r2_encoding(P, A):
     i_size, i_ts = fields.index("file_size_bytes"), fields.index("file_ts")
 
     class Summ:
-        """summaries.py + ONE extra: `<String as PartialEq>::eq(&file.file_ts, captured file_ts)` = the free boolean E"""
+        """summaries.py + ONE extra: a String comparison between `file.file_ts` and the captured `file_ts` (`==`, `!=`, `<`, `<=`, `>`,
+        `>=`) is a predicate over ONE free integer C = cmp(file.file_ts, file_ts) in {-1, 0, 1} (a total order, which is all the
+        closure can observe of the two texts)"""
         used = 0
 
-        def __init__(self, E):
-            self.E = E
+        def __init__(self, C):
+            self.C = C
 
         def lookup(self, pc):
-            if pc["self_ty"] == "String" and pc["trait"] == "PartialEq" and pc["method"] == "eq":
-                def f(ex, pc, a, st, g):
-                    ok = (isinstance(a[0], RefV) and a[0].cell == ("ext", "file") and a[0].path == (("f", i_ts),)
-                          and isinstance(a[1], RefV) and a[1].cell == ("ext", "ts"))
-                    if not ok or Summ.used:
-                        raise Unsupported("String equality on something else than file.file_ts == file_ts")
+            if pc["self_ty"] == "String" and pc["trait"] in ("PartialEq", "PartialOrd") and pc["method"] in ("eq", "ne", "lt", "le", "gt", "ge"):
+                def f(ex, pc, a, st, g, m=pc["method"]):
+                    def is_file(x):
+                        return isinstance(x, RefV) and x.cell == ("ext", "file") and x.path == (("f", i_ts),)
+
+                    def is_cap(x):
+                        return isinstance(x, RefV) and x.cell == ("ext", "ts")
+                    if is_file(a[0]) and is_cap(a[1]):
+                        c = self.C
+                    elif is_cap(a[0]) and is_file(a[1]):
+                        c = smt.i_sub(0, self.C)
+                    else:
+                        raise Unsupported("String comparison on something else than file.file_ts and the captured file_ts")
                     Summ.used += 1
-                    return BoolV(self.E), g
+                    t = {"eq": smt.i_eq(c, 0), "ne": smt.i_ne(c, 0), "lt": smt.i_lt(c, 0), "le": smt.i_le(c, 0),
+                         "gt": smt.i_lt(0, c), "ge": smt.i_le(0, c)}[m]
+                    return BoolV(ex.S.define_bool("scmp", t)), g
                 return f
             return base.lookup(pc)
 
         def describe(self, pc):
-            return "String == String as a free boolean E (file.file_ts == file_ts)" if pc["self_ty"] == "String" else base.describe(pc)
+            if pc["self_ty"] == "String":
+                return "String comparison of file.file_ts with file_ts as a predicate over the free integer C = cmp(..) in {-1, 0, 1}"
+            return base.describe(pc)
 
         constant = staticmethod(base.constant)
         is_foreign_adt = staticmethod(base.is_foreign_adt)
@@ -505,7 +525,7 @@ def r2_encoding(P, A):
     fsz = S.declare_int("file_size_bytes", 0, USIZE_MAX)
     rem = S.declare_int("remaining_bytes", 0, USIZE_MAX)
     mx = S.declare_int("max_file_size_bytes", 0, USIZE_MAX)
-    E = S.declare_bool("file_ts_equal")
+    E = S.declare_int("file_ts_cmp", -1, 1)
     ex.summaries = Summ(E)
     e = Encoding("keep_closure", ex)
     try:
@@ -521,7 +541,7 @@ def r2_encoding(P, A):
         rv, st, g = ex.exec_body(body, [Agg("struct", "closure", env), RefV(("ext", "file"))], store, True)
         if not isinstance(rv, BoolV):
             raise Unsupported("closure did not return bool")
-        e.inputs = [("file_size_bytes", fsz), ("remaining_bytes", rem), ("max_file_size_bytes", mx), ("file_ts_equal", E)]
+        e.inputs = [("file_size_bytes", fsz), ("remaining_bytes", rem), ("max_file_size_bytes", mx), ("file_ts_cmp", E)]
         e.outputs = [("keep", rv.t)]
         e.ret_guard = g
     except Unsupported as u:
@@ -550,7 +570,7 @@ def r2_vectors(stdout):
         if rest[0] != "true 1":
             problems.append("vector %s: the first batch did not create exactly one file (%s)" % (w[1:4], rest[0]))
             continue
-        inp = {"file_size_bytes": a, "remaining_bytes": b, "max_file_size_bytes": l, "file_ts_equal": True}
+        inp = {"file_size_bytes": a, "remaining_bytes": b, "max_file_size_bytes": l, "file_ts_cmp": 0}
         if len(rest) < 2 or rest[1] == "PANIC":
             v.append(("a%d_b%d_L%d" % (a, b, l), inp, {"panic": True, "out": {}}))
         elif rest[1] in ("true 1", "true 2"):
@@ -570,7 +590,7 @@ def r2_obligation(P, A, enc, workdir):
     if not enc.error:
         i, o = dict(enc.inputs), dict(enc.outputs)
         pre = i_le(i_add(i["file_size_bytes"], i["remaining_bytes"]), USIZE_MAX)
-        spec = b_and(i_le(i_add(i["file_size_bytes"], i["remaining_bytes"]), i["max_file_size_bytes"]), i["file_ts_equal"])
+        spec = b_and(i_le(i_add(i["file_size_bytes"], i["remaining_bytes"]), i["max_file_size_bytes"]), smt.i_eq(i["file_ts_cmp"], 0))
         pan = enc.panics()
         q = [Query("K3_r2_keep_test_panic_free", enc, [pre, _or([p.guard for p in pan])], fast_z3=True),
              Query("K3_r2_keep_iff_fits_and_same_period", enc, [pre, enc.ret_guard, b_not(b_eq(o["keep"], spec))], fast_z3=True)]
@@ -585,7 +605,7 @@ def r2_obligation(P, A, enc, workdir):
                 continue
             ii = dict(enc.inputs)
             extra = [i_le(1, ii["file_size_bytes"]), i_le(ii["file_size_bytes"], 64), i_le(1, ii["remaining_bytes"]), i_le(ii["remaining_bytes"], 64),
-                     i_le(ii["max_file_size_bytes"], 256), ii["file_ts_equal"]]
+                     i_le(ii["max_file_size_bytes"], 256)]
             path = os.path.join(workdir, "r2_small_%s.smt2" % qq.name)
             with open(path, "w") as f:
                 f.write(qq.text(extra=extra))
@@ -594,21 +614,27 @@ def r2_obligation(P, A, enc, workdir):
                 small = {lab: b.model.get(t) for lab, t in enc.inputs}
                 break
         if small is None:
-            return ("fn main() { println!(\"the solver's counterexample %s has no instance with sizes <= 64 bytes in one period: "
+            return ("fn main() { println!(\"the solver's counterexample %s has no instance with sizes <= 64 bytes: "
                     "not replayable\"); }\n" % str(model).replace('"', "'"))
-        a_, b_, l_ = small["file_size_bytes"], small["remaining_bytes"], small["max_file_size_bytes"]
+        a_, b_, l_, c_ = small["file_size_bytes"], small["remaining_bytes"], small["max_file_size_bytes"], small["file_ts_cmp"]
+        # cmp(file.file_ts, file_ts): 0 = second batch in the same period; -1 = the clock moved on to the next minute; +1 = the clock
+        # stepped BACK into the previous minute (the active file then carries a later period than the reading at write time)
+        step = {0: 1, -1: 60, 1: -60}[c_]
         return ("use emit_file::__m2s_cfg as v;\n\nfn main() {\n"
-                "    // C11: a new file is started whenever the batch would take the current file past the size limit (and otherwise not), without panicking.\n"
-                "    // limit %d bytes; a fresh file takes its first batch of %d bytes whatever its size; then a batch of %d bytes in the same period\n"
-                "    let r = v::run_sized(%d, &[%d, %d]);\n    println!(\"{:?}\", r);\n"
+                "    // C11: events go to the file named with the period of the clock reading at write time; a new file is started whenever the period\n"
+                "    // changes or the batch would take the current file past the size limit (and otherwise not), without panicking.\n"
+                "    // limit %d bytes; a fresh file takes its first batch of %d bytes whatever its size; then a batch of %d bytes after the clock moved by %d s\n"
+                "    let r = v::run_sized_step(%d, &[%d, %d], %d);\n    println!(\"{:?}\", r);\n"
                 "    assert_eq!(r[0], \"true 1\", \"first batch\");\n"
                 "    assert!(r.len() == 2 && r[1] != \"PANIC\", \"on_batch panicked on the second batch (file size %d, batch %d, limit %d)\");\n"
-                "    let must_roll = %d + %d > %d;\n"
-                "    assert_eq!(r[1], if must_roll { \"true 2\" } else { \"true 1\" }, \"file size %d + batch %d vs limit %d: expected {}\", if must_roll { \"a new file\" } else { \"the same file\" });\n}\n"
-                % (l_, a_, b_, l_, a_, b_, a_, b_, l_, a_, b_, l_, a_, b_, l_))
+                "    let must_roll = %d + %d > %d || %d != 0;\n"
+                "    assert_eq!(r[1], if must_roll { \"true 2\" } else { \"true 1\" }, \"file size %d + batch %d vs limit %d, period comparison %d: expected {}\", if must_roll { \"a new file\" } else { \"the same file\" });\n}\n"
+                % (l_, a_, b_, step, l_, a_, b_, step, a_, b_, l_, a_, b_, l_, c_, a_, b_, l_, c_))
 
     return Obligation("K3_r2_keep_active_file_test", enc, [FN + "::{closure: file.filter}"],
                       "engine E2 on the MIR of the `file.filter(|file| ..)` closure: ALL usize values of (file_size_bytes, remaining_bytes, "
                       "max_file_size_bytes) with file_size_bytes + remaining_bytes <= usize::MAX (the property's own sum must be representable), "
-                      "the String comparison file.file_ts == file_ts a free boolean E: no panic, result <=> (size + remaining <= max) && E",
+                      "the String comparison between file.file_ts and file_ts a predicate over a free C = cmp(..) in {-1, 0, 1}: no panic, result <=> "
+                      "(size + remaining <= max) && C == 0 (same period); a counterexample with C != 0 is replayed with the clock moved one minute "
+                      "forwards / backwards between two batches through the real Worker",
                       q, replay, crate="emitter/file", default_features=True, append=[(FILE, WRAPPER)])
